@@ -12,9 +12,11 @@ Hypothesis norm_some : forall u v u', norm u v = Some u' -> app u' v = app u v.
 
 (* event as stamped by the cache: target version, and Some u for an update / None for a custom event *)
 Record ev := { e_ver : nat; e_upd : option upd }.
-Inductive citem := CLoaded | CEvent (e : ev).                 (* wsConn.queue items for one subscription *)
+Inductive citem := CLoaded | CEvent (e : ev)                  (* wsConn.queue items for one subscription *)
+                 | CReacc.                                    (* a reaccess event: Subscription.reaccess, whatever the state *)
 Inductive eitem := IEvent (u : upd) | ICustom | IGetResp (v : val) | IAddSub (s : nat)   (* EventSubscription.queue *)
                  | IRemSub (s : nat)   (* ResourceSubscription.Unsubscribe *)
+                 | IReacc              (* a reaccess event of the service: passed on even before the resource is loaded *)
                  | INop (tag : nat).   (* a task that does not touch the resource: the answer to an access or call request
                                           passing through the resource's queue (Cache.sendRequest) *)
 
@@ -60,6 +62,7 @@ Definition replay (p : nat * val) (l : list ev) : nat * val := fold_left proc l 
 Inductive action :=
 | SvcUpdate (u : upd) | SvcCustom | SvcAnswer
 | SvcNop (tag : nat)         (* an answer routed through the resource's queue *)
+| SvcReacc                   (* the service emits a reaccess event *)
 | Subscribe (s : nat)
 | Dispose (s : nat) (cl : bool) (* the subscription is disposed (request failed / access denied); with cl the whole connection closes *)
 | RunE                       (* cache worker executes the head of the resource queue *)
@@ -69,7 +72,7 @@ Inductive action :=
 | StartQueue (s : nat).      (* queueEvents *)
 
 Definition evs (q : list citem) : list ev :=
-  flat_map (fun i => match i with CEvent e => [e] | CLoaded => [] end) q.
+  flat_map (fun i => match i with CEvent e => [e] | CLoaded | CReacc => [] end) q.
 
 Definition with_sub (x : sub) ver v fl q snt : sub :=
   {| subscribed := subscribed x; loaded := loaded x; sver := ver; sval := v; flag := fl;
@@ -93,6 +96,9 @@ Definition step (σ : st) (a : action) : st :=
   | SvcAnswer =>
       if answered σ then σ else
       {| truth := truth σ; answered := true; qe := qe σ ++ [IGetResp (truth σ)];
+         rs_loaded := rs_loaded σ; rs_val := rs_val σ; rs_ver := rs_ver σ; rs_subs := rs_subs σ; subs := subs σ |}
+  | SvcReacc =>
+      {| truth := truth σ; answered := answered σ; qe := qe σ ++ [IReacc];
          rs_loaded := rs_loaded σ; rs_val := rs_val σ; rs_ver := rs_ver σ; rs_subs := rs_subs σ; subs := subs σ |}
   | SvcNop n =>
       {| truth := truth σ; answered := answered σ; qe := qe σ ++ [INop n];
@@ -146,6 +152,10 @@ Definition step (σ : st) (a : action) : st :=
       | INop _ :: q =>
           {| truth := truth σ; answered := answered σ; qe := q;
              rs_loaded := rs_loaded σ; rs_val := rs_val σ; rs_ver := rs_ver σ; rs_subs := rs_subs σ; subs := subs σ |}
+      | IReacc :: q =>
+          {| truth := truth σ; answered := answered σ; qe := q;
+             rs_loaded := rs_loaded σ; rs_val := rs_val σ; rs_ver := rs_ver σ; rs_subs := rs_subs σ;
+             subs := push_all (subs σ) (rs_subs σ) CReacc |}
       | ICustom :: q =>
           {| truth := truth σ; answered := answered σ; qe := q;
              rs_loaded := rs_loaded σ; rs_val := rs_val σ; rs_ver := rs_ver σ; rs_subs := rs_subs σ;
@@ -170,6 +180,11 @@ Definition step (σ : st) (a : action) : st :=
                        eq := []; sent := false; cq := q; gone := gone x; closed := closed x |} in
           {| truth := truth σ; answered := answered σ; qe := qe σ; rs_loaded := rs_loaded σ; rs_val := rs_val σ;
              rs_ver := rs_ver σ; rs_subs := rs_subs σ; subs := set_sub (subs σ) s x' |}
+      | CReacc :: q =>
+          {| truth := truth σ; answered := answered σ; qe := qe σ; rs_loaded := rs_loaded σ; rs_val := rs_val σ;
+             rs_ver := rs_ver σ; rs_subs := rs_subs σ;
+             subs := set_sub (subs σ) s {| subscribed := subscribed x; loaded := loaded x; sver := sver x; sval := sval x; flag := flag x;
+                                           eq := eq x; sent := sent x; cq := q; gone := gone x; closed := closed x |} |}
       | CEvent e :: q =>
           let x' :=
             if negb (loaded x) then                       (* resourceSub == nil: discard *)
@@ -238,7 +253,8 @@ Record Inv (σ : st) : Prop := {
   i6 : forall s e, In e (evs (cq (subs σ s))) -> e_upd e <> None -> e_ver e < rs_ver σ;
   i7 : forall s, loaded (subs σ s) = false -> eq (subs σ s) = [];
   i8 : forall s, flag (subs σ s) = false -> eq (subs σ s) = [];
-  i9 : rs_loaded σ = false -> forall s, cq (subs σ s) = [];
+  (* before the resource is loaded a connection queue holds nothing but reaccess events *)
+  i9 : rs_loaded σ = false -> forall s, evs (cq (subs σ s)) = [] /\ cnt is_ld (cq (subs σ s)) = 0;
   igl : forall s, gone (subs σ s) = true -> loaded (subs σ s) = false;
   icg : forall s, closed (subs σ s) = true -> gone (subs σ s) = true;
   irm : forall s, gone (subs σ s) = false -> cnt (is_rem s) (qe σ) = 0;
@@ -320,7 +336,10 @@ Proof.
 Qed.
 
 Lemma init_inv t : Inv (init t).
-Proof. constructor; cbn; intros; try reflexivity; try discriminate; try contradiction; try lia; try apply NoDup_nil. Qed.
+Proof.
+  constructor; cbn; intros; try reflexivity; try discriminate; try contradiction; try lia; try apply NoDup_nil.
+  split; reflexivity.
+Qed.
 
 (* replaying events that all target an older version changes nothing *)
 Lemma replay_stale : forall l n v,
@@ -364,6 +383,17 @@ Proof.
 Qed.
 
 Lemma inv_svc_nop σ n : Inv σ -> Inv (step σ (SvcNop n)).
+Proof.
+  intros H; inv_fields H. constructor; cbn -[pend cnt replay evs mem]; auto.
+  - rewrite pend_app, H1. reflexivity.
+  - rewrite cnt_app. cbn. lia.
+  - intros s Hg. rewrite cnt_app. cbn. specialize (H3 s Hg). lia.
+  - intros s. rewrite cnt_app. cbn. specialize (H3g s). lia.
+  - intros s. rewrite cnt_app. cbn. specialize (H4 s). lia.
+  - intros s Hg. rewrite cnt_app. cbn. specialize (Hrm s Hg). lia.
+Qed.
+
+Lemma inv_svc_reacc σ : Inv σ -> Inv (step σ SvcReacc).
 Proof.
   intros H; inv_fields H. constructor; cbn -[pend cnt replay evs mem]; auto.
   - rewrite pend_app, H1. reflexivity.
@@ -430,14 +460,18 @@ Lemma upd_inv σ s0 x' (k : bool) : Inv σ ->
   (loaded x' = true -> replay (sver x', sval x') (eq x' ++ evs (cq x')) = (rs_ver σ, rs_val σ)) ->
   (forall e, In e (evs (cq x')) -> In e (evs (cq (subs σ s0)))) ->
   (loaded x' = false -> eq x' = []) -> (flag x' = false -> eq x' = []) ->
-  (rs_loaded σ = false -> cq x' = []) ->
   (gone (subs σ s0) = true -> gone x' = true) ->
   (closed x' = true -> gone x' = true) ->
   (gone x' = true -> loaded x' = false) ->
   (k = true -> gone x' = true) ->
   Inv (with_subs_q σ (if k then qe σ ++ [IRemSub s0] else qe σ) (set_sub (subs σ) s0 x')).
 Proof.
-  intros H Hs Hc Hr Hi He Hf H0 Hmono Hcg' Hgl' Hk. inv_fields H.
+  intros H Hs Hc Hr Hi He Hf Hmono Hcg' Hgl' Hk. inv_fields H.
+  assert (H0 : rs_loaded σ = false -> evs (cq x') = [] /\ cnt is_ld (cq x') = 0).
+  { intros Hrl. destruct (H9 Hrl s0) as [Hev Hld]. pose proof (H4 s0) as H4s. rewrite Hrl, andb_false_r in H4s. cbn [b2n] in H4s.
+    split; [|lia].
+    destruct (evs (cq x')) as [|e r] eqn:Ee; [reflexivity|].
+    specialize (Hi e (or_introl Logic.eq_refl)). rewrite Hev in Hi. contradiction. }
   assert (Hx : forall s, s <> s0 -> set_sub (subs σ) s0 x' s = subs σ s) by (intros; apply set_sub_neq; assumption).
   assert (Hy : set_sub (subs σ) s0 x' s0 = x') by apply set_sub_eq.
   set (q' := if k then qe σ ++ [IRemSub s0] else qe σ).
@@ -496,7 +530,6 @@ Proof.
   - rewrite Hl. intros Hld. rewrite Hr by assumption. apply H5; assumption.
   - rewrite Hc. auto.
   - rewrite Hl. exact He.
-  - rewrite Hc. intros Hrl. apply H9; assumption.
   - rewrite Hg. auto.
   - rewrite Hcl, Hg. apply Hcg.
   - rewrite Hg, Hl. apply Hgl.
@@ -562,7 +595,7 @@ Qed.
 Lemma inv_runc σ s0 : Inv σ -> Inv (step σ (RunC s0)).
 Proof.
   intros H. cbn [step]. pose proof H as H'. inv_fields H'.
-  destruct (cq (subs σ s0)) as [|[|e] q] eqn:Ecq; [assumption| |].
+  destruct (cq (subs σ s0)) as [|[|e|] q] eqn:Ecq; [assumption| | |].
   - (* Loaded *)
     pose proof (H4 s0) as H4s. rewrite Ecq, cnt_cons in H4s. cbn [is_ld b2n] in H4s.
     pose proof (b2n_le (mem s0 (rs_subs σ) && rs_loaded σ)).
@@ -573,14 +606,12 @@ Proof.
         try reflexivity; try discriminate; auto.
       * rewrite Ecq, cnt_cons, Hl0. cbn [is_ld b2n]. lia.
       * intros e Hin. rewrite Ecq. exact Hin.
-      * intros Hrl. specialize (H9 Hrl s0). rewrite Ecq in H9. discriminate.
     + (* snapshot *)
       apply (upd_inv σ s0 _ false H); cbn [subscribed loaded cq eq gone closed flag sver sval b2n];
         try reflexivity; try discriminate.
       * rewrite Ecq, cnt_cons, Hl0. cbn [is_ld b2n]. lia.
       * intros _. apply replay_stale. intros e Hin. apply (H6 s0). rewrite Ecq. exact Hin.
       * intros e Hin. rewrite Ecq. exact Hin.
-      * intros Hrl. specialize (H9 Hrl s0). rewrite Ecq in H9. discriminate.
       * rewrite Eg. discriminate.
       * intros Hc. rewrite (Hcg s0 Hc) in Eg. discriminate.
   - (* Event *)
@@ -593,7 +624,6 @@ Proof.
         -- rewrite Ecq, cnt_cons, El. cbn [is_ld b2n]. lia.
         -- intros _. rewrite <- app_assoc. specialize (H5 s0 El). rewrite Ecq in H5. exact H5.
         -- intros e' Hin. rewrite Ecq. right. exact Hin.
-        -- intros Hrl. specialize (H9 Hrl s0). rewrite Ecq in H9. discriminate.
         -- auto.
         -- apply Hcg.
         -- rewrite Eg. discriminate.
@@ -606,7 +636,6 @@ Proof.
            cbn [List.app] in *. unfold replay in *. cbn [evs flat_map List.app fold_left] in H5. rewrite Ep in H5. exact H5.
         -- intros e' Hin. rewrite Ecq. right. exact Hin.
         -- intros _. exact Heq0.
-        -- intros Hrl. specialize (H9 Hrl s0). rewrite Ecq in H9. discriminate.
         -- auto.
         -- apply Hcg.
         -- rewrite Eg. discriminate.
@@ -616,9 +645,19 @@ Proof.
       * intros e' Hin. rewrite Ecq. right. exact Hin.
       * intros _. apply H7; assumption.
       * apply H8.
-      * intros Hrl. specialize (H9 Hrl s0). rewrite Ecq in H9. discriminate.
       * auto.
       * apply Hcg.
+  - (* Reaccess: the task is popped, nothing else changes *)
+    apply (upd_inv σ s0 _ false H); cbn [subscribed loaded cq eq gone closed flag sver sval b2n];
+      try reflexivity; try discriminate.
+    + rewrite Ecq, cnt_cons. cbn [is_ld b2n]. lia.
+    + intros Hl. specialize (H5 s0 Hl). rewrite Ecq in H5. exact H5.
+    + intros e Hin. rewrite Ecq. exact Hin.
+    + apply H7.
+    + apply H8.
+    + auto.
+    + apply Hcg.
+    + apply Hgl.
 Qed.
 
 (* ---- cache worker ---- *)
@@ -698,10 +737,46 @@ Proof.
   - exact Hnd.
 Qed.
 
+(* a reaccess event fanned out to the subscribers, whether or not the resource is loaded: the item is neither an
+   event nor a Loaded task, so nothing the invariant counts or replays changes *)
+Lemma reacc_inv σ q : Inv σ -> qe σ = IReacc :: q ->
+  Inv {| truth := truth σ; answered := answered σ; qe := q; rs_loaded := rs_loaded σ; rs_val := rs_val σ; rs_ver := rs_ver σ;
+         rs_subs := rs_subs σ; subs := push_all (subs σ) (rs_subs σ) CReacc |}.
+Proof.
+  intros H Eq. pose proof H as H'. inv_fields H'.
+  pose proof (push_all_fields (subs σ) (rs_subs σ) CReacc) as PF.
+  assert (Hev : forall s, evs (cq (push_all (subs σ) (rs_subs σ) CReacc s)) = evs (cq (subs σ s))).
+  { intros s. destruct (PF s) as (_&_&_&_&_&_&G&_). rewrite G.
+    destruct (mem s (rs_subs σ) && negb (closed (subs σ s))); [|reflexivity].
+    rewrite evs_app. cbn [evs flat_map]. apply app_nil_r. }
+  assert (Hld : forall s, cnt is_ld (cq (push_all (subs σ) (rs_subs σ) CReacc s)) = cnt is_ld (cq (subs σ s))).
+  { intros s. destruct (PF s) as (_&_&_&_&_&_&G&_). rewrite G.
+    destruct (mem s (rs_subs σ) && negb (closed (subs σ s))); [|reflexivity].
+    rewrite cnt_app. change (cnt is_ld [CReacc]) with 0. lia. }
+  rewrite Eq in *.
+  constructor; cbn -[pend cnt replay evs mem push_all].
+  - unfold pend in *. cbn [fold_left pstep] in H1. exact H1.
+  - rewrite cnt_cons in H2. exact H2.
+  - intros s. destruct (PF s) as (A&_&_&_&_&_&_&Gg&_). rewrite A, Gg. intros Hgn.
+    specialize (H3 s Hgn). rewrite cnt_cons in H3. exact H3.
+  - intros s. destruct (PF s) as (A&_). rewrite A. specialize (H3g s). rewrite cnt_cons in H3g. exact H3g.
+  - intros s. destruct (PF s) as (_&B&_). rewrite Hld, B. specialize (H4 s). rewrite cnt_cons in H4. exact H4.
+  - intros s. destruct (PF s) as (_&B&C&D&_&F&_). rewrite Hev, B, C, D, F. apply H5.
+  - intros s e. rewrite Hev. apply H6.
+  - intros s. destruct (PF s) as (_&B&_&_&_&F&_). rewrite B, F. apply H7.
+  - intros s. destruct (PF s) as (_&_&_&_&E&F&_). rewrite E, F. apply H8.
+  - intros Hrl s. rewrite Hev, Hld. apply H9, Hrl.
+  - intros s. destruct (PF s) as (_&B&_&_&_&_&_&Gg&_). rewrite B, Gg. apply Hgl.
+  - intros s. destruct (PF s) as (_&_&_&_&_&_&_&Gg&Gc). rewrite Gg, Gc. apply Hcg.
+  - intros s. destruct (PF s) as (_&_&_&_&_&_&_&Gg&_). rewrite Gg. intros Hgn.
+    specialize (Hrm s Hgn). rewrite cnt_cons in Hrm. exact Hrm.
+  - exact Hnd.
+Qed.
+
 Lemma inv_rune σ : Inv σ -> Inv (step σ RunE).
 Proof.
   intros H. cbn [step]. pose proof H as H'. inv_fields H'.
-  destruct (qe σ) as [|[u| |v|s0|s0|n0] q] eqn:Eq; [assumption| | | | | |].
+  destruct (qe σ) as [|[u| |v|s0|s0| |n0] q] eqn:Eq; [assumption| | | | | | |].
   - (* resource event *)
     destruct (rs_loaded σ) eqn:Erl.
     + destruct (norm u (rs_val σ)) as [u'|] eqn:En.
@@ -732,7 +807,7 @@ Proof.
     pose proof (b2n_le (answered σ)).
     assert (Erl : rs_loaded σ = false) by (destruct (rs_loaded σ); cbn in *; [lia|reflexivity]).
     rewrite Erl in *. cbn [b2n] in H2.
-    assert (Hcq : forall s, cq (subs σ s) = []) by (apply H9; reflexivity).
+    assert (Hcq : forall s, evs (cq (subs σ s)) = [] /\ cnt is_ld (cq (subs σ s)) = 0) by (apply H9; reflexivity).
     assert (Hz : forall s, loaded (subs σ s) = false /\ cnt (is_rem s) q = 0).
     { intros s. specialize (H4 s). rewrite andb_false_r, cnt_cons in H4. cbn [is_rem b2n] in H4.
       destruct (loaded (subs σ s)); cbn [b2n] in *; split; try reflexivity; lia. }
@@ -747,11 +822,12 @@ Proof.
       rewrite cnt_app, cnt_refused_0 by (intros; reflexivity).
       specialize (H3g s). rewrite cnt_cons in H3g. cbn [is_add b2n] in H3g. lia.
     + intros s. destruct (PF s) as (_&B&_&_&_&_&G&_). rewrite B, G. destruct (Hz s) as [Hl Hr].
-      rewrite Hl, Hcq, cnt_app, Hr, (cnt_refused_rem _ _ _ Hnd).
-      destruct (mem s (rs_subs σ)), (closed (subs σ s)); reflexivity.
+      destruct (Hcq s) as [_ Hld]. rewrite Hl, cnt_app, Hr, (cnt_refused_rem _ _ _ Hnd).
+      destruct (mem s (rs_subs σ)), (closed (subs σ s)); cbn [andb negb]; rewrite ?cnt_app, Hld; reflexivity.
     + intros s. destruct (PF s) as (_&B&_). rewrite B. destruct (Hz s) as [Hl _]. rewrite Hl. discriminate.
     + intros s e. destruct (PF s) as (_&_&_&_&_&_&G&_).
-      rewrite G, Hcq. destruct (mem s (rs_subs σ) && negb (closed (subs σ s))); cbn; intros [].
+      destruct (Hcq s) as [Hev _].
+      rewrite G. destruct (mem s (rs_subs σ) && negb (closed (subs σ s))); rewrite ?evs_app, Hev; cbn; intros [].
     + intros s. destruct (PF s) as (_&B&_&_&_&F&_). rewrite B, F. apply H7.
     + intros s. destruct (PF s) as (_&_&_&_&E&F&_). rewrite E, F. apply H8.
     + discriminate.
@@ -855,13 +931,15 @@ Proof.
     + intros s Hgn. destruct (Nat.eq_dec s s0) as [->|Hne]; [congruence|].
       specialize (Hrm s Hgn). rewrite (Pr s Hne) in Hrm. exact Hrm.
     + apply NoDup_remove, Hnd.
+  - (* reaccess event: passed on to every open subscriber, loaded or not *)
+    apply (reacc_inv σ q H Eq).
   - (* a task that does not touch the resource *)
     apply (pop_inv σ (INop n0) q H Eq); reflexivity.
 Qed.
 
 Theorem step_inv σ a : Inv σ -> Inv (step σ a).
 Proof.
-  destruct a; [apply inv_svc_update|apply inv_svc_custom|apply inv_svc_answer|apply inv_svc_nop|apply inv_subscribe
+  destruct a; [apply inv_svc_update|apply inv_svc_custom|apply inv_svc_answer|apply inv_svc_nop|apply inv_svc_reacc|apply inv_subscribe
               |apply inv_dispose|apply inv_rune|apply inv_runc|apply inv_respond|apply inv_unqueue|apply inv_startqueue].
 Qed.
 
@@ -931,11 +1009,16 @@ Eval vm_compute in (@truth nat nat sigma_ex, @rs_val nat nat sigma_ex, @rs_ver n
                     @eq nat nat (@subs nat nat sigma_ex 1), @eq nat nat (@subs nat nat sigma_ex 2)).
 
 (* non-vacuity with disposal: subscriber 1 is disposed before the resource is loaded (released when its Loaded task runs),
-   subscriber 2's connection closes while it is loaded (released by Dispose), subscriber 3 survives and converges *)
+   subscriber 2's connection closes while it is loaded (released by Dispose), subscriber 3 survives and converges.
+   Reaccess events: one is fanned out BEFORE the resource is loaded (every subscriber, also the disposed one, gets a
+   CReacc task; subscriber 1 runs it before the get response arrives, 2 and 3 after it, in front of their Loaded task),
+   one after an update once the resource is loaded, and one that the closing connection 2 refuses. *)
 Definition acts_ex2 : list (action nat) :=
   [Subscribe nat 1; Subscribe nat 2; Subscribe nat 3; RunE nat; RunE nat; RunE nat; Dispose nat 1 false;
-   SvcAnswer nat; RunE nat; RunC nat 1; RunC nat 2; RunC nat 3; Respond nat 2 0; Respond nat 3 0;
-   SvcUpdate nat 5; RunE nat; RunE nat; RunC nat 2; RunC nat 3; Dispose nat 2 true; RunE nat].
+   SvcReacc nat; RunE nat; RunC nat 1;
+   SvcAnswer nat; RunE nat; RunC nat 1; RunC nat 2; RunC nat 2; RunC nat 3; RunC nat 3; Respond nat 2 0; Respond nat 3 0;
+   SvcUpdate nat 5; SvcReacc nat; RunE nat; RunE nat; RunE nat; RunC nat 2; RunC nat 2; RunC nat 3; RunC nat 3;
+   SvcReacc nat; Dispose nat 2 true; RunE nat; RunE nat; RunC nat 3].
 Definition sigma_ex2 := run nat nat (fun u v => u + v) (fun u v => if Nat.eqb u 0 then None else Some u) 0 100 acts_ex2.
 Eval vm_compute in (@rs_subs nat nat sigma_ex2, @truth nat nat sigma_ex2, @rs_val nat nat sigma_ex2,
                     @sval nat nat (@subs nat nat sigma_ex2 3), @loaded nat nat (@subs nat nat sigma_ex2 3),
@@ -943,6 +1026,40 @@ Eval vm_compute in (@rs_subs nat nat sigma_ex2, @truth nat nat sigma_ex2, @rs_va
                      @gone nat nat (@subs nat nat sigma_ex2 3)),
                     (@closed nat nat (@subs nat nat sigma_ex2 1), @closed nat nat (@subs nat nat sigma_ex2 2)),
                     @qe nat nat sigma_ex2).
+(* the state after the first reaccess event was fanned out: the resource is not loaded, yet every connection queue holds a
+   task (the old invariant "not loaded -> all connection queues empty" no longer holds; i9 says they hold no events) *)
+Definition sigma_ex2_pre :=
+  run nat nat (fun u v => u + v) (fun u v => if Nat.eqb u 0 then None else Some u) 0 100 (firstn 9 acts_ex2).
+Example ex2_reacc_before_load :
+  @rs_loaded nat nat sigma_ex2_pre = false /\ @answered nat nat sigma_ex2_pre = false /\
+  @cq nat nat (@subs nat nat sigma_ex2_pre 1) = [CReacc nat] /\ @cq nat nat (@subs nat nat sigma_ex2_pre 2) = [CReacc nat] /\
+  @cq nat nat (@subs nat nat sigma_ex2_pre 3) = [CReacc nat].
+Proof. vm_compute. repeat split. Qed.
+(* after the get response: the reaccess task sits in front of the Loaded task of subscribers 2 and 3 *)
+Definition sigma_ex2_mid :=
+  run nat nat (fun u v => u + v) (fun u v => if Nat.eqb u 0 then None else Some u) 0 100 (firstn 12 acts_ex2).
+Example ex2_reacc_then_loaded :
+  @rs_loaded nat nat sigma_ex2_mid = true /\
+  @cq nat nat (@subs nat nat sigma_ex2_mid 1) = [CLoaded nat] /\
+  @cq nat nat (@subs nat nat sigma_ex2_mid 2) = [CReacc nat; CLoaded nat] /\
+  @cq nat nat (@subs nat nat sigma_ex2_mid 3) = [CReacc nat; CLoaded nat].
+Proof. vm_compute. repeat split. Qed.
+(* loaded resource: the update and the reaccess event are both fanned out, in order *)
+Definition sigma_ex2_post :=
+  run nat nat (fun u v => u + v) (fun u v => if Nat.eqb u 0 then None else Some u) 0 100 (firstn 24 acts_ex2).
+Example ex2_reacc_after_load :
+  @rs_loaded nat nat sigma_ex2_post = true /\ @rs_subs nat nat sigma_ex2_post = [3; 2] /\
+  @cq nat nat (@subs nat nat sigma_ex2_post 1) = [] /\
+  @cq nat nat (@subs nat nat sigma_ex2_post 2) = [CEvent nat {| e_ver := 0; e_upd := Some 5 |}; CReacc nat] /\
+  @cq nat nat (@subs nat nat sigma_ex2_post 3) = [CEvent nat {| e_ver := 0; e_upd := Some 5 |}; CReacc nat].
+Proof. vm_compute. repeat split. Qed.
+(* the last reaccess event: connection 2 is closing and refuses the task, subscriber 3 gets it *)
+Definition sigma_ex2_last :=
+  run nat nat (fun u v => u + v) (fun u v => if Nat.eqb u 0 then None else Some u) 0 100 (firstn 31 acts_ex2).
+Example ex2_reacc_refused :
+  @closed nat nat (@subs nat nat sigma_ex2_last 2) = true /\ @rs_subs nat nat sigma_ex2_last = [3; 2] /\
+  @cq nat nat (@subs nat nat sigma_ex2_last 2) = [] /\ @cq nat nat (@subs nat nat sigma_ex2_last 3) = [CReacc nat].
+Proof. vm_compute. repeat split. Qed.
 Example ex2_subs : @rs_subs nat nat sigma_ex2 = [3].
 Proof. vm_compute. reflexivity. Qed.
 Lemma ex2_quiescent : quiescent nat nat sigma_ex2.
